@@ -5,6 +5,7 @@ package main
 
 import (
 	"bytes"
+	"math"
 	"context"
 	"encoding/json"
 	"fmt"
@@ -48,6 +49,8 @@ func c01init() {
 	add(log.RegisterLevel(1, "L1"))
 	add(log.RegisterLevel(1000, "L1000"))
 	add(log.RegisterLevel(-5, "NEG"))
+	add(log.RegisterLevel(math.MinInt32, "LOWEST"))
+	add(log.RegisterLevel(math.MaxInt32, "HIGHEST"))
 }
 
 type rng struct{ min, max int32 }
@@ -221,7 +224,7 @@ func (c *c01case) expectSinks(L int32) []string {
 			if !ref.explicit {
 				// open-ended: ends at the smallest lower bound strictly greater than its own
 				max = 999
-				best := int32(-1 << 30)
+				best := int32(math.MinInt32)
 				found := false
 				for j, o := range c.Refs {
 					if j != i && o.min > ref.min && (!found || o.min < best) {
@@ -500,7 +503,7 @@ func (c *c01case) refsDesc() string {
 func init() {
 	register(&Prop{
 		ID: "C01", Level: "exploration", MinDistinct: 40, Worker: c01Worker,
-		Rule: "configurations generated from a seeded grammar: logger kind in {Logger, AsyncLogger(Block), Console, File, RollingFile sync/async x separate on/off}, each with/without a logger-level JSON layout; logger range and 1-4 appenderRef ranges drawn from \"\" | MIN | MIN~MAX over 9 built-in and 7 harness-registered levels (codes -5,1,50,350,998,1000,1500), random letter case, " +
+		Rule: "configurations generated from a seeded grammar: logger kind in {Logger, AsyncLogger(Block), Console, File, RollingFile sync/async x separate on/off}, each with/without a logger-level JSON layout; logger range and 1-4 appenderRef ranges drawn from \"\" | MIN | MIN~MAX over 9 built-in and 9 harness-registered levels (codes MinInt32,-5,1,50,350,998,1000,1500,MaxInt32), random letter case, " +
 			"references declared in random index order, equal lower bounds forced in 1/4 of the cases; every case is Refreshed, all 15 entry points are called (Record at all 16 registered levels) with unique ids, then Destroy. Oracle: independent re-implementation of the routing statement; multiset of (sink,id) and the level per id must match exactly. " +
 			"Non-trivial/distinct = distinct (logger kind+layout, reference range shapes, equal-lower-bound present, logger level set) classes among configurations that matched.",
 		Assumptions: []string{"references with an explicit ~MAX upper bound and two references to the same appender are not generated (statement does not fix the outcome)", "async loggers use the Block policy so that nothing is legitimately dropped; they are flushed by Destroy"},
